@@ -4,6 +4,9 @@ import (
 	"fmt"
 	"time"
 
+	"google.golang.org/grpc/codes"
+
+	"github.com/omec-project/upf-epc/zzverif/vsim"
 	"github.com/omec-project/upf-epc/zzverif/vsimenv"
 )
 
@@ -11,8 +14,8 @@ const c15Variants = 48
 
 func init() {
 	Register(&PropDef{
-		ID: "C15", QuickRuns: 50 * c15Variants, Level: "fault_enumeration", Variants: c15Variants,
-		Rule: fmt.Sprintf("scenario family on the P4Runtime datapath with small counter / meter arrays (8-16 cells): attach; attach + FAR update; attach + delete; two sessions sharing a gNB peer and an application filter; attach-fail-attach. For every scenario (one choice stream) the run is repeated with variant k = 0..%d: k=0 fault-free, k>0 fails exactly the k-th Write RPC after start-up (the failure kind - transport error, lost response, per-update P4 error - is part of the scenario); a share of the scenarios adds a random second fault. Each run then attaches further sessions so that a wrongly recycled id is handed out again. Oracle at the switch after every request: no counter cell, application-meter cell, session-meter cell, tunnel-peer id or application id is referenced by entries of two different owners; the PFCP cause of an establishment / modification whose write failed is a rejection. Non-trivial = the fault fired inside a session request; distinct = different (scenario skeleton, k).", c15Variants-1),
+		ID: "C15", QuickRuns: 200 * c15Variants, Level: "fault_enumeration", Variants: c15Variants,
+		Rule: fmt.Sprintf("scenario family on the P4Runtime datapath with small counter / meter arrays (8-16 cells): attach; attach + FAR update; attach + delete; two sessions sharing a gNB peer and an application filter; attach-fail-attach. For every scenario (one choice stream) the run is repeated with variant k = 0..%d: k=0 fault-free, k>0 fails exactly the k-th Write RPC after start-up (the failure kind is part of the scenario: transport error; response lost after the write was applied; per-update P4 error with code INTERNAL / UNAVAILABLE / NOT_FOUND / RESOURCE_EXHAUSTED / PERMISSION_DENIED / ABORTED - ALREADY_EXISTS is left out because the plug-in passes it over on purpose; UNKNOWN without details, what gRPC makes of a server exception); the FAR update goes to another gNB or repeats the same gNB; a share of the scenarios adds a random second fault. In half of the scenarios only 3-5 tunnel-peer / application ids are left in the pools (white-box bridge, before the first session). Each run then attaches further sessions towards up to nine gNBs so that a wrongly recycled id is handed out again. Oracle at the switch after every request: no counter cell, application-meter cell, session-meter cell, tunnel-peer id or application id is referenced by entries of two different owners; no id that an entry of a live session refers to sits in the plug-in's free pool (white-box bridge); no tunnel_peers INSERT arrives for an id that is installed for another gNB and referenced by a live session; the PFCP cause of an establishment / modification whose write failed is a rejection. Non-trivial = the fault fired inside a session request; distinct = different (scenario skeleton, k).", c15Variants-1),
 		Assume: []string{"owner of a terminations / sessions entry = the UE address (downlink) or the TEID (uplink) it is installed under", "exhaustive in the position k of one failing write up to the number of writes a scenario performs (<= 47)"},
 		Real: CommonReal, Simulated: append(append([]string{}, CommonSim...), "P4Runtime switch with write-failure injection"),
 		Scenario: scenarioC15,
@@ -24,6 +27,103 @@ func checkP4IDs(r *Run, prop, ctx string) {
 	fc := ":" + r.FaultCtx()
 	sw := r.W.P4
 	v := p4view{sw}
+	// an INSERT under a tunnel_peers key (= the id) that is installed with another
+	// gNB address: the agent handed the id out while its entry is still in use
+	for _, c := range sw.KeyConflicts {
+		if c.Table != tPeers {
+			continue
+		}
+		id, _ := v.match(tPeers, c.Old, "tunnel_peer_id")
+		oldDst, _ := v.param(c.Old, "dst_addr")
+		newDst, _ := v.param(c.New, "dst_addr")
+		users := 0
+		for _, e := range sw.SortedEntries(tSessDL) {
+			if tp, ok := v.param(e, "tunnel_peer_id"); ok && tp == id {
+				users++
+			}
+		}
+		if users == 0 {
+			// an orphan entry whose DELETE failed earlier: no live session uses the
+			// id, so handing it out again is not what this property forbids
+			r.Probe("tunnel-peer-id-reused-over-orphan-entry")
+			continue
+		}
+		r.Violate(prop, "tunnel-peer-id-handed-out-while-installed"+fc, "%s: the agent tried to INSERT tunnel peer id %d for gNB %v while that id is installed for gNB %v and referenced by %d sessions_downlink entr(ies)", ctx, id, u32IP(uint32(newDst)), u32IP(uint32(oldDst)), users)
+	}
+	// ids that entries of live sessions refer to must not sit in the plug-in's
+	// free pools (a wrongly recycled id: the next allocation hands it out)
+	if r.AgentAlive() && r.Agent != nil {
+		var free map[string][]uint64
+		a := r.Agent
+		vsim.Ephemeral(func() { free = a.VerifUP4FreeIDs() })
+		inFree := func(space string, id uint64) bool {
+			for _, x := range free[space] {
+				if x == id {
+					return true
+				}
+			}
+			return false
+		}
+		liveUE := map[uint64]uint64{}
+		liveTEID := map[uint64]uint64{}
+		for _, s := range r.LiveSessions() {
+			// (also sessions whose modification was hit by a fault: the ids are
+			// read from the switch, not from the model)
+			for _, p := range s.PDRs {
+				if p.SrcIface == IfCore {
+					liveUE[uint64(p.EffUEIP())] = s.CPSEID
+				} else {
+					liveTEID[uint64(p.EffTEID())] = s.CPSEID
+				}
+			}
+		}
+		recycled := func(space string, id uint64, owner string, cp uint64) {
+			if id != 0 && inFree(space, id) {
+				r.Violate(prop, space+"-recycled-while-in-use"+fc, "%s: %s id %d is referenced by %s of live session cp=%d and is in the plug-in's free pool at the same time", ctx, space, id, owner, cp)
+			}
+		}
+		for _, e := range sw.SortedEntries(tSessDL) {
+			ue, _ := v.match(tSessDL, e, "ue_address")
+			cp, ok := liveUE[ue]
+			if !ok {
+				continue
+			}
+			if tp, ok := v.param(e, "tunnel_peer_id"); ok && v.action(e) == aSessDL {
+				recycled("tunnel-peer", tp, "the sessions_downlink entry", cp)
+			}
+			if m, ok := v.param(e, "session_meter_idx"); ok {
+				recycled("session-meter-cell", m, "the sessions_downlink entry", cp)
+			}
+		}
+		for _, e := range sw.SortedEntries(tSessUL) {
+			teid, _ := v.match(tSessUL, e, "teid")
+			if cp, ok := liveTEID[teid]; ok {
+				if m, ok := v.param(e, "session_meter_idx"); ok {
+					recycled("session-meter-cell", m, "the sessions_uplink entry", cp)
+				}
+			}
+		}
+		for _, tab := range []string{tTermUL, tTermDL} {
+			for _, e := range sw.SortedEntries(tab) {
+				ue, _ := v.match(tab, e, "ue_address")
+				cp, ok := liveUE[ue]
+				if !ok {
+					continue
+				}
+				if app, ok := v.match(tab, e, "app_id"); ok {
+					recycled("application", app, "a terminations entry", cp)
+				}
+				if c, ok := v.param(e, "ctr_idx"); ok {
+					if inFree("counter-cell", c) {
+						r.Violate(prop, "counter-cell-recycled-while-in-use"+fc, "%s: counter cell %d is referenced by a terminations entry of live session cp=%d and is in the plug-in's free pool at the same time", ctx, c, cp)
+					}
+				}
+				if m, ok := v.param(e, "app_meter_idx"); ok {
+					recycled("app-meter-cell", m, "a terminations entry", cp)
+				}
+			}
+		}
+	}
 	// counters: one cell per terminations entry
 	ctr := map[uint64]string{}
 	appCell := map[uint64]uint64{} // cell -> ue
@@ -121,7 +221,14 @@ func scenarioC15(r *Run) {
 	for _, n := range []string{mApp, mSess, cPre, cPost} {
 		sw.Resize(n, small)
 	}
-	sw.FailKind = []string{"transport", "update", "lost"}[r.Ch.Choose(3, "failkind")]
+	sw.FailKind = []string{"transport", "update", "lost", "update", "bare-unknown"}[r.Ch.Choose(5, "failkind")]
+	codeName := ""
+	if sw.FailKind == "update" {
+		// ALREADY_EXISTS is left out: the plug-in passes it over on purpose (entries shared between PDRs)
+		k := r.Ch.Choose(6, "failcode")
+		sw.FailCode = []codes.Code{codes.Internal, codes.Unavailable, codes.NotFound, codes.ResourceExhausted, codes.PermissionDenied, codes.Aborted}[k]
+		codeName = ":" + sw.FailCode.String()
+	}
 	family := r.Ch.Choose(5, "family")
 	second := r.Ch.Choose(5, "second-fault") == 1
 	p := r.AddPeer()
@@ -132,6 +239,14 @@ func scenarioC15(r *Run) {
 	}
 	if p.AssociateRetry() == nil {
 		return
+	}
+	keep := 0
+	if r.Ch.Choose(2, "few-ids-left") == 1 {
+		// most tunnel-peer / application ids are in use already: a wrongly
+		// released id comes round again within the further sessions below
+		keep = 3 + r.Ch.Choose(3, "ids-left")
+		a := r.Agent
+		vsim.Ephemeral(func() { a.VerifUP4ShrinkIDPools(keep) })
 	}
 	base := sw.Writes
 	if r.Variant > 0 {
@@ -144,8 +259,11 @@ func scenarioC15(r *Run) {
 	for k := range g.Avoid {
 		g.Avoid[k] = true
 	}
+	for i := 13; i <= 18; i++ {
+		g.gnbs = append(g.gnbs, ip4(fmt.Sprintf("198.18.1.%d", i))) // enough distinct gNBs to turn the id queue round
+	}
 	firedBefore := func() int {
-		return sw.Fired["p4-write-fail-transport"] + sw.Fired["p4-write-fail-update"] + sw.Fired["p4-write-response-lost"]
+		return sw.Fired["p4-write-fail-transport"] + sw.Fired["p4-write-fail-update"] + sw.Fired["p4-write-response-lost"] + sw.Fired["p4-write-fail-bare-unknown"]
 	}
 	est := func(shared bool) *CPSession {
 		s := g.Session(p, SessShape{NQER: 1 + r.Ch.Choose(2, "nq"), TEIDChoose: true})
@@ -164,7 +282,7 @@ func scenarioC15(r *Run) {
 			r.SetFaultCtx("write-failed-in-establishment:" + sw.FailKind)
 			r.Fault("p4-write-failed-in-establishment")
 			if res.Accepted && sw.FailKind != "lost" {
-				r.Violate("C15", "establishment-accepted-although-write-failed:"+sw.FailKind, "a Write RPC of the establishment of cp=%d failed (%s) but the request was answered with acceptance", s.CPSEID, sw.FailKind)
+				r.Violate("C15", "establishment-accepted-although-write-failed:"+sw.FailKind+codeName, "a Write RPC of the establishment of cp=%d failed (%s%s) but the request was answered with acceptance", s.CPSEID, sw.FailKind, codeName)
 			}
 			if res.Accepted && sw.FailKind == "lost" {
 				r.Violate("C15", "establishment-accepted-although-write-failed:lost", "a Write RPC of the establishment of cp=%d returned an error (response lost) but the request was answered with acceptance", s.CPSEID)
@@ -180,7 +298,11 @@ func scenarioC15(r *Run) {
 	}
 	mod := func(s *CPSession) {
 		g.nextTEID++
-		m := &ModSpec{Tag: "uF:tunnel", UpdateFAR: []*FARSpec{{ID: 2, Action: ActFORW, DstIface: IfAccess, HasFwd: true, HasOHC: true, TEID: g.nextTEID, PeerIP: g.gnbs[1+r.Ch.Choose(2, "gnb")]}}}
+		to := g.gnbs[1+r.Ch.Choose(2, "gnb")]
+		if old := s.FAR(2); old != nil && old.HasOHC && r.Ch.Choose(2, "same-gnb") == 1 {
+			to = old.PeerIP // the FAR is sent again with a new TEID towards the same gNB
+		}
+		m := &ModSpec{Tag: "uF:tunnel", UpdateFAR: []*FARSpec{{ID: 2, Action: ActFORW, DstIface: IfAccess, HasFwd: true, HasOHC: true, TEID: g.nextTEID, PeerIP: to}}}
 		f0 := firedBefore()
 		res := p.Modify(s, m)
 		hit := firedBefore() > f0
@@ -193,7 +315,7 @@ func scenarioC15(r *Run) {
 			r.SetFaultCtx("write-failed-in-modification:" + sw.FailKind)
 			r.Fault("p4-write-failed-in-modification")
 			if res.Accepted {
-				r.Violate("C15", "modification-accepted-although-write-failed:"+sw.FailKind, "a Write RPC of the modification of cp=%d failed (%s) but the request was answered with acceptance", s.CPSEID, sw.FailKind)
+				r.Violate("C15", "modification-accepted-although-write-failed:"+sw.FailKind+codeName, "a Write RPC of the modification of cp=%d failed (%s%s) but the request was answered with acceptance", s.CPSEID, sw.FailKind, codeName)
 			}
 		}
 		checkP4IDs(r, "C15", fmt.Sprintf("after modification of cp=%d", s.CPSEID))
@@ -240,6 +362,9 @@ func scenarioC15(r *Run) {
 	}
 	// further sessions: any wrongly recycled id is handed out again
 	more := 2 + r.Ch.Choose(int(small), "more")
+	if keep > 0 && more < keep+2 {
+		more = keep + 2
+	}
 	for i := 0; i < more && len(r.Violations) == 0 && r.AgentAlive(); i++ {
 		s := est(r.Ch.Choose(2, "shared") == 1)
 		if s != nil && r.Ch.Choose(3, "churn") == 1 {
